@@ -1,7 +1,7 @@
 #!/bin/bash
 # usage: tools_mut.sh <relpath under conductor/> <python-regex-old> <new> <cli pattern>   (scratch copy of the FIXED tree)
 set -e
-BASE=${MUT_BASE:-/tmp/fixedwt/src/conductor}
+BASE=${MUT_BASE:-/repo/src/conductor}
 D=$(mktemp -d /tmp/mut.XXXX)
 cp -r $BASE $D/conductor
 python3 - "$D/conductor/$1" "$2" "$3" <<'PY'
